@@ -9,7 +9,7 @@ From Coq Require Import Uint63.
 From WG Require Import Base.Prelude Base.Ints Gen.Constants Offload.Bytes Offload.Checksum Offload.Gso Offload.GsoSpec.
 Local Open Scope N_scope.
 
-Record case := {
+Record vcase := {
   c_raw : list N; c_nbufs : N; c_room : N;
   c_panic : bool; c_touched : bool; c_n : N; c_err : N; c_segs : list (list N) }.
 
@@ -38,11 +38,23 @@ Definition unpack_selftest : bool :=
      | x :: a', y :: b' => (x =? y) && eqb a' b'
      | _, _ => false
      end) (unpack7f l) (unpack7 l).
+(* a case is a virtio-net read, or a direct call of checksumNoFold/checksum, or of
+   pseudoHeaderChecksumNoFold (64-bit values travel as two 32-bit halves) *)
+Inductive case :=
+| CV (v : vcase)
+| CK (init : N) (b : list N) (o_nofold o_ck : N)
+| CP (proto : N) (src dst : list N) (tlen : N) (o_nofold : N).
+
 Definition mk (rawlen : N) (raw : list int) (nbufs room : N) (panic touched : bool) (n err : N)
               (segs : list (N * list int)) : case :=
-  {| c_raw := unpackN rawlen raw; c_nbufs := nbufs; c_room := room;
-     c_panic := panic; c_touched := touched; c_n := n; c_err := err;
-     c_segs := map (fun s => unpackN (fst s) (snd s)) segs |}.
+  CV {| c_raw := unpackN rawlen raw; c_nbufs := nbufs; c_room := room;
+        c_panic := panic; c_touched := touched; c_n := n; c_err := err;
+        c_segs := map (fun s => unpackN (fst s) (snd s)) segs |}.
+Definition w64 (hi lo : N) : N := hi * 4294967296 + lo.
+Definition mkck (ihi ilo n : N) (b : list int) (ohi olo ock : N) : case :=
+  CK (w64 ihi ilo) (unpackN n b) (w64 ohi olo) ock.
+Definition mkph (proto ns : N) (src : list int) (nd : N) (dst : list int) (tlen ohi olo : N) : case :=
+  CP proto (unpackN ns src) (unpackN nd dst) tlen (w64 ohi olo).
 
 Fixpoint first_diff (a b : list N) (i : N) : option N :=
   match a, b with
@@ -64,7 +76,7 @@ Fixpoint segs_diff (a b : list (list N)) (i : N) : option N :=
 
 Definition P40 : N := 1099511627776.
 
-Definition model_diff (k : case) : option N :=
+Definition model_diff (k : vcase) : option N :=
   match handle_virtio_read (c_raw k) (c_nbufs k) (c_room k) with
   | Panic => if c_panic k then None else Some (P40 + 1)
   | Done n e segs =>
@@ -74,7 +86,7 @@ Definition model_diff (k : case) : option N :=
       else segs_diff segs (c_segs k) 0
   end.
 
-Definition spec_diff (k : case) : option N :=
+Definition spec_diff (k : vcase) : option N :=
   match parse_super (c_raw k) with
   | Some sp =>
       if wf_superb sp && (1 <=? c_nbufs k) then
@@ -111,9 +123,41 @@ Definition spec_diff (k : case) : option N :=
       end
   end.
 
-Definition check_case (k : case) : list (N * N) :=
-  (match model_diff k with Some p => [(1, p)] | None => [] end) ++
-  (match spec_diff k with Some p => [(2, p)] | None => [] end).
+(* direct calls of tun/checksum.go.
+   kind 1: 2^40+200 checksumNoFold differs from the mirror, +201 checksum differs, +202 pseudo header
+   kind 2: clause 50 checksumNoFold(b, init) is not < 2^64 and congruent to init + sum16 b modulo 0xffff,
+           51 checksum(b, init) is not the 16-bit one's-complement sum of init + sum16 b,
+           52 the pseudo-header accumulator is not congruent to src + dst + proto + len *)
+Definition check_ck (init : N) (b : list N) (o_nofold o_ck : N) : list (N * N) :=
+  let S := init + sum16 b in
+  (if negb (checksumNoFold b init =? o_nofold) then [(1, P40 + 200)]
+   else if negb (checksum b init =? o_ck) then [(1, P40 + 201)] else []) ++
+  (if negb ((o_nofold <? two64) && (o_nofold mod 65535 =? S mod 65535)) then [(2, 50)]
+   else if negb (o_ck =? oc16 S) then [(2, 51)] else []).
+
+Definition check_ph (proto : N) (src dst : list N) (tlen o : N) : list (N * N) :=
+  (if negb (pseudoHeaderChecksumNoFold proto src dst tlen =? o) then [(1, P40 + 202)] else []) ++
+  (if negb ((o <? two64) && (o mod 65535 =? pseudo_sum proto src dst tlen mod 65535)) then [(2, 52)] else []).
+
+Definition check_case (c : case) : list (N * N) :=
+  match c with
+  | CV k =>
+      (match model_diff k with Some p => [(1, p)] | None => [] end) ++
+      (match spec_diff k with Some p => [(2, p)] | None => [] end)
+  | CK init b o1 o2 => check_ck init b o1 o2
+  | CP proto src dst tlen o => check_ph proto src dst tlen o
+  end.
+
+(* does a 4-, 2- or 1-byte tail step of checksumNoFold carry out of bit 63 (mirror)? *)
+Definition tail_carry (b : list N) (initial : N) : bool :=
+  let len := N.of_nat (length b) in
+  let st := blk 1 (blk 2 (blk 4 (blk 8 (loop128 (S (N.to_nat (len / 128))) (bswap64 initial) b len)))) in
+  let carries (n : nat) (st : cst) : bool :=
+    let '(ac, b, len) := st in (N.of_nat n <=? len) && (two64 <=? ac + le (firstn n b)) in
+  let st4 := small 4 st in
+  let st2 := small 2 st4 in
+  carries 4%nat st || carries 2%nat st4 ||
+  (let '(ac, b, len) := st2 in (len =? 1) && (two64 <=? ac + le (firstn 1 b))).
 
 (* the x/sys/unix constants the model and the specification spell out, as the Go compiler has them:
    [GSO_NONE; GSO_TCPV4; GSO_TCPV6; GSO_UDP_L4; F_NEEDS_CSUM; IPPROTO_TCP; IPPROTO_UDP] *)
@@ -135,7 +179,9 @@ Definition check_cases (abi : list int) (ks : list case) (idx : N) : list (N * N
    0..11 error class returned (0 = nil), 12 panic, 13 GSO_NONE plain, 14 GSO_NONE+NEEDS_CSUM,
    15 TCPv4, 16 TCPv6, 17 UDPv4, 18 UDPv6 (well-formed super-packets),
    19 specification evaluated on a super-packet, 20 on a checksum-completion packet,
-   21 segments checked by the specification *)
+   21 segments checked by the specification,
+   22 direct checksumNoFold/checksum calls, 23 of them with a carry out of bit 63 in a 4/2/1-byte
+   tail step, 24 direct pseudoHeaderChecksumNoFold calls *)
 Fixpoint bump (l : list N) (i : nat) (d : N) : list N :=
   match l, i with
   | [], _ => []
@@ -143,7 +189,7 @@ Fixpoint bump (l : list N) (i : nat) (d : N) : list N :=
   | x :: t, S j => x :: bump t j d
   end.
 
-Definition classify (k : case) (st : list N) : list N :=
+Definition classify (k : vcase) (st : list N) : list N :=
   let st := if c_panic k then bump st 12 1 else bump st (N.to_nat (c_err k)) 1 in
   match parse_super (c_raw k) with
   | Some sp =>
@@ -159,4 +205,9 @@ Definition classify (k : case) (st : list N) : list N :=
   end.
 
 Definition stats (ks : list case) : list N :=
-  fold_left (fun st k => classify k st) ks (repeat 0 22).
+  fold_left (fun st c =>
+               match c with
+               | CV k => classify k st
+               | CK init b _ _ => let st := bump st 22 1 in if tail_carry b init then bump st 23 1 else st
+               | CP _ _ _ _ _ => bump st 24 1
+               end) ks (repeat 0 25).
